@@ -150,6 +150,9 @@ struct TransitionBase {
 	#pragma warning(pop)
 #endif
 
+// only the payload-free base is packed: alignas(Payload) below must take effect
+#pragma pack(pop)
+
 ////////////////////////////////////////////////////////////////////////////////
 
 template <typename TPayload>
@@ -246,8 +249,6 @@ struct TransitionT<void> final
 {
 	using TransitionBase::TransitionBase;
 };
-
-#pragma pack(pop)
 
 ////////////////////////////////////////////////////////////////////////////////
 
